@@ -388,3 +388,52 @@ def update_state_model(ctx, rule):
                  input="class A: s = Selector(objects=[1, 2, 3], default=3, compute_default_fn=f); class B(A): s = Selector(objects=[1, 2]) -> B is created with objects [1, 2, 3]")
     else:
         ctx.ok(rule, f, f.node, "selector model: _update_state extends the objects with the merged default only when check_on_set is False (%d cases)" % n)
+
+
+def get_range_model(ctx, rule):
+    """Selector.get_range interpreted TWICE on one Selector, with a length-preserving in-place mutation of its objects in
+    between (objects[1] = n on a list-declared selector; objects['b'] = n on a dict-declared one -- what the ListProxy
+    mutators do: same containers, same lengths).  Specification: the second answer describes the objects as they are now."""
+    f = ctx.hier.resolve(SEL, "get_range")
+    problems, n = [], 0
+    for named in (False, True):
+        x, y, z, new = Obj("x"), Obj("y"), Obj("z"), Obj("n")
+        objs = [x, y, z]
+        names = {"a": x, "b": y, "c": z} if named else {}
+        sel = Obj("selector", **{s_: None for s_ in ctx.hier.all_slots(SEL)})
+        sel.attrs.update(_objects=objs, names=names)
+
+        def hook(fn, args, kwargs):
+            if fn == "_named_objs" and args:
+                o = args[0]
+                nm = args[1] if len(args) > 1 else kwargs.get("names")
+                if nm:
+                    return dict(nm)
+                return {getattr(v, "name", str(v)): v for v in o}
+            if fn == "id" and len(args) == 1 and isinstance(args[0], (list, dict)):
+                return ("id", id(args[0]))
+            if fn == "len" and len(args) == 1 and isinstance(args[0], (list, dict)):
+                return len(args[0])
+            return NotImplemented
+        results = []
+        for step in (1, 2):
+            it = Interp(ctx.hier, dyn=SEL, inline=lambda m: False, call_hook=hook)
+            try:
+                outs = it.run_all(f, {f.params[0]: sel})
+            except Unsupported as e:
+                raise AnalysisError("selector model: absint cannot interpret Selector.get_range: %s" % e)
+            if len(outs) != 1 or outs[0].imprecise or outs[0].kind != "return" or not isinstance(outs[0].value, dict):
+                raise AnalysisError("selector model: Selector.get_range is not interpretable precisely (%s)" % (outs[0].notes[:2] if outs else "no outcome"))
+            results.append(dict(outs[0].value))
+            objs[1] = new                    # the same list, the same length
+            if named:
+                names["b"] = new
+        n += 2
+        if not any(v is new for v in results[1].values()) or any(v is y for v in results[1].values()):
+            problems.append("%s selector: get_range() asked again after objects[%s] = n still answers %s: the range describes the old objects while the list view, the labels and validation follow "
+                            "the new ones" % ("dict-declared" if named else "list-declared", "'b'" if named else "1", sorted(getattr(v, "name", v) for v in results[1].values())))
+    ctx.abstract_cases += n
+    if problems:
+        ctx.fail(rule, f, f.node, "selector model (get_range): %s (%d case(s))" % (problems[0], len(problems)), key="%s::get-range-stale" % SEL, input="s.get_range(); s.objects[1] = n; s.get_range()")
+    else:
+        ctx.ok(rule, f, f.node, "selector model: get_range describes the objects as they are at every call (%d calls)" % n)
